@@ -1,6 +1,96 @@
 (* C01 — Codec round-trips every well-formed packet; Len() equals the bytes written.
-   (theorems are added as the proofs land) *)
+   Only statements, `exact`, and Print Assumptions.
+
+   Model (Codec/Enc.v): len_go = each type's Len(); encode_into dst p = Encode(dst) over a
+   buffer with arbitrary prior content; encode_go cap p = Encode(make([]byte, cap)) observed as
+   EOk n bytes | EErr n | EPanic; encoder_write prior p = packet.Encoder.Write with a pooled
+   buffer holding `prior`.  Reference (Codec/WireSpec.v): wire_spec, written from MQTT 3.1.1.
+   wf / total_len: Codec/WF.v.  decode_go: Codec/Dec.v (decoder side, C02).
+   Quantification is over ALL packet values: every flag combination, id, size. *)
 From Coq Require Import List NArith.
-From GM Require Import Codec.Packet Codec.WF Codec.Enc Codec.WireSpec.
+From Coq.Strings Require Import Byte.
+From GM Require Import Codec.Packet Codec.WF Codec.Enc Codec.WireSpec Codec.Dec Codec.EncProofsSpec Codec.EncProofsTop
+  Codec.EncProofsRoundTrip.
 Import ListNotations.
 Open Scope N_scope.
+
+(* encoding a well-formed packet into Len() bytes succeeds *)
+Theorem C01_encode_total : forall p, wf p = true -> exists bs, encode_go (len_go p) p = EOk (len_go p) bs.
+Proof. exact encode_total. Qed.
+Print Assumptions C01_encode_total.
+
+(* EVERY packet (well-formed or not), every buffer size: if Encode succeeds, the count it
+   returns and the bytes it wrote are exactly Len() *)
+Theorem C01_len_is_written : forall p cap n bs,
+  encode_go cap p = EOk n bs -> n = len_go p /\ blen bs = len_go p.
+Proof. exact encode_len_is_written. Qed.
+Print Assumptions C01_len_is_written.
+
+(* Len() is 1 + size of the remaining-length field + remaining length computed from the field sizes *)
+Theorem C01_len_spec : forall p, wf p = true -> len_go p = total_len p.
+Proof. exact len_go_total_len. Qed.
+Print Assumptions C01_len_spec.
+
+(* the bytes are the MQTT 3.1.1 layout *)
+Theorem C01_layout : forall p, wf p = true -> encode_go (len_go p) p = EOk (len_go p) (wire_spec p).
+Proof. exact encode_layout. Qed.
+Print Assumptions C01_layout.
+
+(* Encoder.Write: whatever earlier packets left in the pooled buffer, exactly wire_spec p is
+   handed to the writer — no stale bytes *)
+Theorem C01_wire_exact : forall p prior, wf p = true -> encoder_write prior p = XSent (wire_spec p).
+Proof. exact encoder_write_exact. Qed.
+Print Assumptions C01_wire_exact.
+
+(* Encode into any larger, dirty buffer: the first Len() bytes are wire_spec p, the rest is untouched *)
+Theorem C01_dirty_buffer : forall p dst, wf p = true -> len_go p <= blen dst ->
+  encode_into dst p = BOk (len_go p) (wire_spec p ++ drop (len_go p) dst).
+Proof. exact encode_dirty. Qed.
+Print Assumptions C01_dirty_buffer.
+
+(* a buffer shorter than Len(): an error — not a panic, not a success (every packet) *)
+Theorem C01_short_buffer : forall p cap, cap < len_go p -> exists n, encode_go cap p = EErr n.
+Proof. exact encode_short_buffer. Qed.
+Print Assumptions C01_short_buffer.
+
+(* Encode never panics, for any packet and any buffer size *)
+Theorem C01_no_panic : forall p cap, encode_go cap p <> EPanic.
+Proof. exact encode_no_panic. Qed.
+Print Assumptions C01_no_panic.
+
+(* decoding the wire bytes of a well-formed packet yields the packet back, field for field,
+   and consumes all of them (decode_go: the model of Type.New().Decode, Codec/Dec.v) *)
+Theorem C01_roundtrip : forall p, wf p = true ->
+  decode_go (ptype_of p) (wire_spec p) = DOk p (total_len p).
+Proof. exact roundtrip. Qed.
+Print Assumptions C01_roundtrip.
+
+(* the same, end to end through the encoder model *)
+Theorem C01_encode_decode : forall p, wf p = true ->
+  exists bs, encode_go (len_go p) p = EOk (len_go p) bs /\ decode_go (ptype_of p) bs = DOk p (len_go p).
+Proof.
+  intros p W. exists (wire_spec p). split; [exact (encode_layout p W) |].
+  rewrite (len_go_total_len p W). exact (roundtrip p W).
+Qed.
+Print Assumptions C01_encode_decode.
+
+(* non-vacuity: one well-formed packet per shape, including a 16384-byte remaining length,
+   and concrete wire bytes *)
+Definition ex_publish : packet := Publish true (Msg [x61; x2f; x62] [x01; x02] 2 true) 65535.
+Definition ex_connect : packet :=
+  Connect (Conn [x63] 10 [x75] [x70] false (Some (Msg [x77] [x21] 1 true)) 3).
+Definition ex_big : packet := Publish false (Msg [x74] (repeat xaa (N.to_nat 16381)) 0 false) 0.
+
+Example C01_nonvacuous :
+  wf ex_publish = true /\ wf ex_connect = true /\ wf ex_big = true /\ body_len ex_big = 16384 /\
+  wf (Subscribe 1 [([x61], 0); ([x62; x2f; x23], 2)]) = true /\ wf (Suback 256 [0; 1; 2; 128]) = true /\
+  wf (Unsubscribe 65535 [[x61]]) = true /\ wf (Connack true 5) = true /\ wf (Pubrel 1) = true /\ wf Pingreq = true /\
+  encode_go (len_go ex_publish) ex_publish = EOk 11 [x3d; x09; x00; x03; x61; x2f; x62; xff; xff; x01; x02] /\
+  wire_spec ex_connect =
+    [x10; x1b; x00; x06; x4d; x51; x49; x73; x64; x70; x03; xec; x00; x0a; x00; x01; x63;
+     x00; x01; x77; x00; x01; x21; x00; x01; x75; x00; x01; x70] /\
+  len_go ex_big = 16388 /\
+  (exists n, encode_go 10 ex_publish = EErr n) /\
+  encoder_write [xee; xee; xee; xee; xee; xee; xee; xee] (Pubrel 258) = XSent [x62; x02; x01; x02] /\
+  decode_go TPublish [x3d; x09; x00; x03; x61; x2f; x62; xff; xff; x01; x02] = DOk ex_publish 11.
+Proof. vm_compute. repeat split; try reflexivity. eexists; reflexivity. Qed.
